@@ -268,6 +268,7 @@ def run(tier, replay=None):
                  kept='columnIndex2', exchanged='columnIndex1',
                  sign_vars={'col1IsNeg': (1, '-'), 'col2IsNeg': (2, '-')}, pairing_only=True)
     check_paired_direction(chk, F)
+    check_dictionary_cover(chk, F)
     chk.assumptions += ['clang 14 parser; template patterns (all if-constexpr arms, contradictory arms pruned)',
                         'the *_transpose functions are the only code exchanging bars (checked by name)']
     return chk
@@ -341,3 +342,72 @@ def check_paired_direction(chk, F):
                                                       [t for t in bad[0] if t.startswith('I')]),
                key='E2|Chain_vine_swap::%s|paired-direction' % f['name'])
     chk.expect_count('E2-paired-direction', 'handlers adding paired chains', n, 2)
+
+
+def check_dictionary_cover(chk, F):
+    """E5b: with the vector container the RU pivot dictionary is a std::vector subscripted without a bound test by the
+    swap code at the positions of the two swapped cells (whatever their sign). Wherever that is so, every insertion
+    makes the vector cover the index of the inserted cell: the size handed to resize() in RU_matrix::_insert_boundary
+    is data-dependent on the index of the new column (a dictionary sized for the pivots seen so far is too short as
+    soon as the last cells are positive)."""
+    sw = [f for f in F.functions if f.get('clsname') == 'RU_vine_swap' and f.get('inst') in (0, 2) and
+          f.get('body') is not None]
+    unguarded = []
+    for f in sw:
+        for x in ir.walk(f['body']):
+            if x.get('k') in ('ArraySubscriptExpr', 'CXXOperatorCallExpr') and (x.get('k') == 'ArraySubscriptExpr' or
+                                                                              x.get('op') == '[]'):
+                t = ir.show(x)
+                if 'pivotToColumnIndex_[' in t and 'columnIndex' in t:
+                    unguarded.append((f, x))
+    ins = [f for f in F.functions if f.get('clsname') == 'RU_matrix' and f['name'] == '_insert_boundary' and
+           f.get('inst') in (0, 2) and f.get('body') is not None]
+    if len(ins) != 1:
+        raise AnalysisBroken('C06: RU_matrix::_insert_boundary not found')
+    f = ins[0]
+    where = '%s:%d' % (rel(f['file']), f['line'])
+    if not unguarded:
+        chk.ob('E5b-dictionary-cover', 'the swap code does not subscript the pivot dictionary without a bound test',
+               where, True, '', key='E5b|RU_matrix::_insert_boundary|dictionary-cover', nontrivial=False)
+        return
+    idx = f['params'][0]['n'] if f.get('params') else None
+    locs = {}
+
+    def value_names(e):
+        """names whose *value* flows into e by arithmetic: the arguments of calls are lookups, not magnitudes"""
+        out = []
+        stack = [e]
+        while stack:
+            y = stack.pop()
+            if y is None:
+                continue
+            if ir.is_call(y):
+                continue
+            if y.get('k') == 'DeclRefExpr':
+                out.append(y.get('n'))
+            stack.extend(ir.kids(y))
+        return out
+    for x in ir.walk(f['body']):
+        if x.get('k') == 'VarDecl' and x.get('init') is not None:
+            locs[x['n']] = value_names(x['init'])
+        if x.get('k') == 'BinaryOperator' and x.get('op') == '=':
+            l = ir.skipcasts(x['c'][0])
+            if l is not None and l.get('k') == 'DeclRefExpr':
+                locs.setdefault(l['n'], [])
+                locs[l['n']] += value_names(x['c'][1])
+
+    def depends(names, depth=3):
+        if idx in names:
+            return True
+        if depth == 0:
+            return False
+        return any(n in locs and depends(locs[n], depth - 1) for n in names)
+    resizes = [x for x in ir.walk(f['body']) if ir.is_call(x) and ir.call_name(x) == 'resize' and
+               'pivotToColumnIndex_' in ir.show(x)]
+    ok = any(depends(value_names(ir.call_args(r)[0])) for r in resizes if ir.call_args(r))
+    u = unguarded[0]
+    chk.ob('E5b-dictionary-cover', 'RU_matrix::_insert_boundary makes the pivot dictionary cover the inserted cell '
+           '(subscripted unchecked by %s, line %s)' % (u[0]['name'], u[1].get('l')), where, ok,
+           '' if ok else 'the size given to pivotToColumnIndex_.resize() does not depend on `%s`: the vector only '
+           'covers the pivots seen so far while %s subscripts it at the positions of the swapped cells' %
+           (idx, u[0]['name']), key='E5b|RU_matrix::_insert_boundary|dictionary-cover')
